@@ -127,6 +127,10 @@ class CallGraph:
                     if isinstance(x, ast.Attribute) and isinstance(x.ctx, ast.Store):
                         store_targets.add(id(x))
         base_env = env
+        # does the function call something it holds in a local / a table (a call whose callee is a plain name that is not a
+        # module-level function or class, or a subscript)?
+        local_names = {x.id for x in own_nodes(f.node) if isinstance(x, ast.Name) and isinstance(x.ctx, ast.Store)}
+        has_indirect_call = any(isinstance(x, ast.Call) and ((isinstance(x.func, ast.Name) and x.func.id in local_names) or isinstance(x.func, (ast.Subscript, ast.IfExp))) for x in own_nodes(f.node))
         for n in own_nodes(f.node):
             if isinstance(n, (ast.Attribute, ast.Call)):
                 env = self._narrowed_env(n, f, base_env)
@@ -152,6 +156,11 @@ class CallGraph:
                         elif not is_callee or c.has_property(n.attr):
                             for g in self._getters_on(c, n.attr, exact):
                                 out.append(Edge(f, n, "getter", g, False, c))
+                            # a bound method taken as a value (`reader = self._line__host`, a table of readers): whoever
+                            # holds it may call it - an edge to the method, as if it were called here
+                            if not is_callee and not c.has_property(n.attr) and has_indirect_call:
+                                for g in self._methods_on(c, n.attr, exact):
+                                    out.append(Edge(f, n, "call", g, False, c))
                 elif any(m[0] in ("str", "int", "bool", "list", "dict", "set", "tuple", "mod", "extmod", "ext", "type", "none", "super", "func", "extfunc", "extattr", "builtin_method") for m in members(bt)):
                     self.stats["resolved"] += 1
                     for m in members(bt):
